@@ -4,22 +4,28 @@ E1 (bounded exhaustive enumeration of bases against the restated hypotheses, mc/
 
 Sub-checks (names usable with --only):
   small : every basis of Bases(3,4) (all sets of <= 3 patterns of length 1..4; closed under the eight
-          symmetries): each of the nine fast strategies' applies() (called twice on the same object)
+          symmetries): each of the nine fast strategies' applies() (called twice on the same object,
+          and once more after the same classes were instantiated and used for the next basis)
           against the reference; the insertion-encoding strategy also against the library's own class
           test on the eight images; find_strategies(b, False) for four orders / repetitions /
           containers.
   ext   : bases outside Bases(3,4) built around the required patterns of each core strategy:
           ext1 = every symmetric image of  N_S + {e}            (e of length 1..5, thorough 1..6)
           ext2 = N_S + {e1, e2}  (e1 < e2 of length 1..4; thorough: every symmetric image)
-          drop = (N_S minus one required pattern) + {e}         (e of length 1..4, thorough 1..5)
-          same observers, two input orders.
-  slow  : the slow strategy.  FinitelyManySimplesStrategy(b).applies() == PinWords.has_finite_simples(b)
-          (the class test), find_strategies(b, True) == fast report + slow verdict,
-          find_strategies(b, False) == find_strategies(b, True) minus the slow strategies,
-          Schmerl-Trotter refutation (no simple avoiders at two consecutive lengths k, k+1 <= 8 =>
-          finitely many simples => must be reported), and equal verdicts inside every symmetry orbit.
+          drop = (N_S minus one required pattern) + {e}         (e of length 1..4, thorough 1..5;
+                 in the quick tier all of these already occur in small/ext2)
+          observers: applies() once per strategy, class test on the eight images, find_strategies
+          in two input orders.
+  slow  : the slow strategy.  find_strategies(b, True) == fast report + slow verdict,
+          find_strategies(b, False) == find_strategies(b, True) minus the slow strategies, the slow
+          verdict == PinWords.has_finite_simples(b) (the class test), FinitelyManySimplesStrategy(b)
+          .applies() on its own, Schmerl-Trotter refutation (no simple avoiders at two consecutive
+          lengths k, k+1 <= 8 => finitely many simples => must be reported), and equal verdicts
+          inside every symmetry orbit.
           quick: all of Bases(2,4) (orbit-closed) + one representative per orbit of the three-element
-          bases; thorough: all of Bases(3,4) + N_S + {e} for |e| <= 5.
+          bases of Bases(3,4) with at most one pattern of length 4;
+          thorough: all of Bases(3,4) (class test and separate applies() on one representative per
+          orbit, every other image through find_strategies and orbit equality) + N_S + {e}, |e| <= 5.
 
 Known finding (open): a basis containing the length-1 permutation makes four core strategies strip
 it to the empty permutation and then trip `assert len(perm) > 0` (smallest witness
@@ -75,7 +81,9 @@ def _names(lst):
 
 
 def _key(basis):
-    return (len(basis), sum(len(p) for p in basis), basis)
+    # simplest first; the degenerate bases containing the length-1 permutation (class = {empty
+    # permutation}, known finding) after the others
+    return ((0,) in basis, len(basis), sum(len(p) for p in basis), basis)
 
 
 def canon(ps):
@@ -100,7 +108,7 @@ def variants(Perm, basis, nvar):
     return out
 
 
-def check_fast(part, basis, nvar, twice=True):
+def check_fast(part, basis, nvar, twice=True, objs=None):
     """All fast observers on one basis (sorted tuple of tuples).  Returns True when the case is
     non-trivial (some fast strategy applies and some does not, by the reference)."""
     Perm, classes, find, IEP, _ = _lib()
@@ -115,6 +123,8 @@ def check_fast(part, basis, nvar, twice=True):
             part.violation("applies", case, {"strategy": name, "constructor": r})
             continue
         obj = r[1]
+        if objs is not None:
+            objs[name] = obj
         for rnd in ((1, 2) if twice else (1,)):
             r = _call(obj.applies)
             if r[0] == "exc":
@@ -158,6 +168,23 @@ def check_fast(part, basis, nvar, twice=True):
         part.violation("applies", case, {"AssertionError_in": sorted(set(known))}, sig=SIG)
     vals = [v for v in exp.values() if v != F.UNDEF]
     return (True in vals) and (False in vals)
+
+
+def check_stale(part, prev_basis, prev_objs, then_basis):
+    """Strategy objects built for prev_basis are asked again after the same classes were built
+    and used for then_basis: an object answers for its own basis (no state shared between
+    objects through the class or the module)."""
+    exp = F.expected(prev_basis)
+    has1 = (0,) in prev_basis
+    case = {"basis": prev_basis, "then": then_basis, "kind": "stale"}
+    for name, obj in prev_objs.items():
+        r = _call(obj.applies)
+        if r[0] == "exc":
+            if not (r[1] == "AssertionError" and has1 and name in F.STRIP_TO_EMPTY):
+                part.violation("stale-object", case, {"strategy": name, "raised": r})
+        elif exp[name] != F.UNDEF and r[1] != exp[name]:
+            part.violation("stale-object", case, {"strategy": name, "got": r[1],
+                                                  "expected": exp[name]})
 
 
 # simples of length 4..8 with the set of patterns (length <= 6) each contains; built once in the
@@ -335,8 +362,13 @@ def shard_fast(shard):
     pool, lo, hi, nvar, twice = shard
     t0 = time.process_time()
     part = Partial()
+    prev = None
     for b in POOLS[pool][lo:hi]:
-        nt = check_fast(part, b, nvar, twice)
+        objs = {} if twice else None
+        nt = check_fast(part, b, nvar, twice, objs)
+        if prev is not None:
+            check_stale(part, prev[0], prev[1], b)
+        prev = (b, objs) if objs else None
         part.add(1, 1 if nt else 0)
         if nt:
             part.sample({"pool": pool, "basis": b,
@@ -398,7 +430,7 @@ def run(ctx, only=None):
     if want("small"):
         e0 = ctx.evals
         res = ctx.pmap(shard_fast, _shards("small", 48, 4, True))
-        ctx.bounds["small"] = ("all %d sets of <=3 patterns of length 1..4; 9 fast strategies x 2 calls, "
+        ctx.bounds["small"] = ("all %d sets of <=3 patterns of length 1..4; 9 fast strategies x 2 calls + 1 call after the next basis, "
                                "class test on 8 images, find_strategies(.,False) in 4 orders/containers"
                                % len(POOLS["small"]))
         ctx.section("small", bases=len(POOLS["small"]), evaluations=ctx.evals - e0,
@@ -467,17 +499,30 @@ def replay(ctx, rec):
     os.chdir(ctx.work)
     basis = canon(case["basis"])
     kind = case.get("kind")
+    part = Partial()
     if kind == "fast":
-        check_fast(ctx, basis, int(case.get("nvar", 4)), bool(case.get("twice", True)))
+        check_fast(part, basis, int(case.get("nvar", 4)), bool(case.get("twice", True)))
+    elif kind == "stale":
+        objs = {}
+        check_fast(Partial(), basis, 1, False, objs)
+        then = canon(case["then"])
+        check_fast(Partial(), then, 1, False, {})
+        check_stale(part, basis, objs, then)
     elif kind == "slow":
         build_simples()
-        check_slow(ctx, basis, bool(case.get("direct", True)), bool(case.get("separate", True)))
+        check_slow(part, basis, bool(case.get("direct", True)), bool(case.get("separate", True)))
     elif kind == "orbit":
         build_simples()
         other = canon(case["other"])
-        v1 = check_slow(ctx, basis, False, True)
-        v2 = check_slow(ctx, other, False, True)
+        v1 = check_slow(part, basis, False, True)
+        v2 = check_slow(part, other, False, True)
         if v1 is not None and v2 is not None and v1 != v2:
-            ctx.violation("fms-symmetry", case, {"verdicts": [v1, v2]})
+            part.violation("fms-symmetry", case, {"verdicts": [v1, v2]})
     else:
         raise ValueError("unknown case kind %r" % kind)
+    # the recorded case is re-examined with all observers of its kind; what counts for the verdict
+    # of the replay: violations of the recorded class (unexplained, or the recorded known-finding
+    # signature) - an unrelated known finding on the same basis is not "still fails"
+    for v in part.viols:
+        if v["sig"] == rec.get("signature"):
+            ctx.violation(v["sub"], v["case"], v["detail"], sig=v["sig"])
